@@ -42,7 +42,7 @@ ASSUMPTIONS = ["inputs without cycles (a container referenced from several posit
                "no two ==-equal set members of different type, no set member str containing ':' or equal to 'NONE' (C06/C07 findings)"]
 
 HDR = ("From DD Require Import Base.PyStr Base.Value Diff.Tree Diff.DiffModel Diff.DiffShow "
-       "Path.PathModel Filter.FilterModel Filter.FilterShow.")
+       "Path.PathModel Filter.FilterModel Filter.FilterModelV Filter.FilterShow.")
 
 THRS = (0, 0.33, 0.9)
 EXTRA_STR = ["a\nb", "__p", "it's", 'q"t', "root[0]", "a']['b", "xroot[1]", "root"]
@@ -106,6 +106,89 @@ def rooted(s):
 
 
 # --------------------------------------------------------------------------
+# the object-dependent branches of _skip_this: exclude_types, exclude_obj_callback(_strict),
+# include_obj_callback(_strict).  Callbacks are JSON-able specs (replayable); they ignore the
+# path argument and answer False on notpresent - the model gets their truth table over every
+# sub-value occurrence of the two inputs.
+# --------------------------------------------------------------------------
+
+TYPES = {"int": (int, "TInt"), "float": (float, "TFloat"), "str": (str, "TStr"), "bool": (bool, "TBool"),
+         "NoneType": (type(None), "TNone"), "list": (list, "TList"), "tuple": (tuple, "TTuple"),
+         "dict": (dict, "TDict"), "set": (set, "TSet"), "frozenset": (frozenset, "TFrozen"), "bytes": (bytes, "TBytes")}
+VALUE_KEYS = ("ty", "cb", "cbs", "icb", "icbs")
+CB_ARGS = {"cb": "exclude_obj_callback", "cbs": "exclude_obj_callback_strict",
+           "icb": "include_obj_callback", "icbs": "include_obj_callback_strict"}
+CONTAINERS = (list, tuple, dict, set, frozenset)
+
+
+def cb_eval(spec, obj):
+    kind = spec[0]
+    if kind == "vals":
+        try:
+            return V.canon(obj) in spec[1]
+        except (TypeError, AssertionError):
+            return False
+    if kind == "str_has":
+        return isinstance(obj, str) and spec[1] in obj
+    if kind == "int_mod":
+        return type(obj) is int and obj % spec[1] == spec[2]
+    if kind == "num_ge":
+        return type(obj) in (int, float) and obj >= spec[1]
+    if kind == "len_ge":
+        return isinstance(obj, CONTAINERS) and len(obj) >= spec[1]
+    if kind == "cont_or":
+        return isinstance(obj, CONTAINERS) or cb_eval(spec[1], obj)
+    raise ValueError(spec)
+
+
+def make_cb(spec):
+    np_ = D.notpresent()
+
+    def f(obj, path=None):
+        if obj is np_:
+            return False
+        return bool(cb_eval(spec, obj))
+    return f
+
+
+def subvalues(v):
+    """every occurrence of a sub-value that can be an object of a level (dict keys never are)"""
+    yield v
+    if isinstance(v, (list, tuple)):
+        for x in v:
+            yield from subvalues(x)
+    elif isinstance(v, dict):
+        for x in v.values():
+            yield from subvalues(x)
+    elif isinstance(v, (set, frozenset)):
+        for x in v:
+            yield x
+
+
+def cb_table(spec, a, b):
+    """the truth table of a callback: Coq terms of the sub-value occurrences it accepts"""
+    seen, out = set(), []
+    for t in (a, b):
+        for v in subvalues(t):
+            if cb_eval(spec, v):
+                c = V.to_coq(v)
+                if c not in seen:
+                    seen.add(c)
+                    out.append(c)
+    return out
+
+
+def crx(r):
+    """one element of exclude_regex_paths: a pattern string, or [pattern, flags] = a PRE-COMPILED pattern
+    re.compile(pattern, flags) - every pattern means what it says, with its own flags"""
+    return re.compile(r) if isinstance(r, str) else re.compile(r[0], r[1])
+
+
+def value_opts(opt):
+    return {k: opt[k] for k in VALUE_KEYS if opt.get(k)}
+
+
+# --------------------------------------------------------------------------
 # the specification of the three options on key sequences
 # --------------------------------------------------------------------------
 
@@ -120,7 +203,7 @@ class Spec:
         self.ex_paths = [p for p in P if self.rend[json.dumps(p)] in exs]
         self.inc_paths = [p for p in P if self.rend[json.dumps(p)] in incs]
         self.inc_given = bool(inc)
-        self.rxs = [re.compile(r) for r in rx]
+        self.rxs = [crx(r) for r in rx]
         self.rx_hit = {}
 
     def rx_match(self, p):
@@ -159,9 +242,14 @@ def dd_kwargs(opt):
     if opt.get("ex"):
         kw["exclude_paths"] = list(opt["ex"])
     if opt.get("rx"):
-        kw["exclude_regex_paths"] = list(opt["rx"])
+        kw["exclude_regex_paths"] = [r if isinstance(r, str) else crx(r) for r in opt["rx"]]
     if opt.get("inc"):
         kw["include_paths"] = list(opt["inc"])
+    if opt.get("ty"):
+        kw["exclude_types"] = [TYPES[n][0] for n in opt["ty"]]
+    for k, name in CB_ARGS.items():
+        if opt.get(k):
+            kw[name] = make_cb(opt[k])
     return kw
 
 
@@ -283,7 +371,7 @@ def set_member_hit(t1, t2, opt, spec=None):
     filter keeps, so that the sets are really compared)"""
     exs = set(s for a in opt.get("ex", ()) for s in rooted(a))
     incs = [s for a in opt.get("inc", ()) for s in rooted(a)]
-    rxs = [re.compile(r) for r in opt.get("rx", ())]
+    rxs = [crx(r) for r in opt.get("rx", ())]
     if spec is None:
         spec = Spec(all_positions(t1, t2), opt.get("ex", ()), opt.get("rx", ()), opt.get("inc", ()))
 
@@ -314,7 +402,7 @@ def set_hits(t1, t2, opt, spec):
     an atom is a member of two compared pairs that are kept (shared memo table: not modelled))"""
     exs = set(s for a in opt.get("ex", ()) for s in rooted(a))
     incs = [s for a in opt.get("inc", ()) for s in rooted(a)]
-    rxs = [re.compile(r) for r in opt.get("rx", ())]
+    rxs = [crx(r) for r in opt.get("rx", ())]
     table, flags, members = [], {"hit": False, "inc": False}, []
 
     def walk(a, b, path, kept):
@@ -578,6 +666,68 @@ def gen_pair_records(rng):
     return gen_pair(rng)
 
 
+def gen_boundary_pair(rng):
+    # no object is referenced twice (share_pair plants sharing on its own and must not close a cycle)
+    a, b = _gen_boundary_pair(rng)
+    return pyval(repr(a)), pyval(repr(b))
+
+
+def _gen_boundary_pair(rng):
+    """pairs sitting on the boundaries of the input-level guards:
+    (a) two dicts whose shared / union key counts are at the whole-dict shortcut of threshold_to_diff_deeper
+        (0.33 and 0.9) give or take one key - excluding or including one key of the union flips it or just not;
+        plain, below a sibling, or below a key that is likely to be excluded itself;
+    (b) default alignment: sequences of atoms with ONE container among them (pairwise pass) next to all-atom
+        sequences (difflib pass) of the same shape"""
+    keys = rng.sample(["a", "b", "c", "d", "e", "f", "g", "h", "i", "j", 1, 2, 3, None], 12)
+    if rng.random() < 0.3:
+        # (c) keys that differ only in case / contain a newline or a blank, side by side, all changed: a regex
+        #     meant for one of them must not catch its twin (patterns keep their OWN compile flags)
+        ks = rng.sample(["id", "ID", "Id", "a", "A", "ab", "aB", "x y", "xy", "a\nb", "b", "tmp_x", "Tmp_c", "zz"], rng.randint(4, 8))
+        row1 = {k: rng.randint(0, 3) for k in ks}
+        row2 = {k: v + rng.randint(1, 3) for k, v in row1.items()}
+        if rng.random() < 0.5:
+            return row1, row2
+        return {"rows": [row1], "k": dict(row1)}, {"rows": [row2], "k": dict(row2)}
+    if rng.random() < 0.6:
+        thr = rng.choice([0.33, 0.33, 0.9])
+        u = rng.randint(2, 7)
+        i = max(0, min(u, int(thr * u) + rng.choice([-1, 0, 0, 1, 1, 2])))
+        common, rest = keys[:i], keys[i:u]
+        cut = rng.randint(0, len(rest))
+        d1 = {k: rng.randint(0, 3) for k in common + rest[:cut]}
+        d2 = {k: (d1[k] if rng.random() < 0.5 else rng.randint(4, 7)) for k in common}
+        d2.update({k: rng.randint(0, 3) for k in rest[cut:]})
+        if rng.random() < 0.3 and common:
+            k = rng.choice(common)
+            d1[k], d2[k] = {"a": 1, "b": 2}, {"a": 1, "x": 2, "y": 3}
+        r = rng.random()
+        if r < 0.4:
+            return d1, d2
+        if r < 0.7:
+            return {"k": d1, "z": 1, "w": [1, 2]}, {"k": d2, "z": rng.choice([1, 2]), "w": [1, 3]}
+        return [d1, {"p": d1, "q": 0}], [d2, {"p": d2, "q": rng.choice([0, 1])}]
+    n = rng.randint(2, 5)
+    xs = [rng.randint(0, 4) for _ in range(n)]
+    ys = list(xs)
+    for _ in range(rng.randint(1, 3)):
+        c = rng.random()
+        if c < 0.4 and ys:
+            ys[rng.randrange(len(ys))] = rng.randint(5, 9)
+        elif c < 0.7:
+            ys.insert(rng.randint(0, len(ys)), rng.randint(5, 9))
+        elif ys:
+            del ys[rng.randrange(len(ys))]
+    if rng.random() < 0.55:
+        j = rng.randrange(n)
+        xs[j] = {"a": 1, "b": [1, 2]}
+        if j < len(ys):
+            ys[j] = rng.choice([{"a": 2, "b": [1, 2]}, {"a": 1, "b": [2, 2]}, 7])
+    if rng.random() < 0.5:
+        return xs, ys
+    return {"l": xs, "m": {"l": xs}}, {"l": ys, "m": {"l": ys if rng.random() < 0.7 else xs}}
+
+
 def share_pair(rng, t1, t2):
     """ONE container object at two positions of t1 and likewise ONE object at the same two positions
     of t2 (Python identity).  Returns (t1, t2, [p, q]) or None.  The model sees values, so sharing is
@@ -643,6 +793,40 @@ def _at(t, q):
     return t
 
 
+def gen_value_opt(rng, t1, t2, P, hot):
+    """one object-dependent option of _skip_this: {key: spec}"""
+    pos = [p for p in (hot or P)] or P
+    vals = []
+    for p in pos:
+        for t in (t1, t2):
+            if has_pos(t, p):
+                vals.append(_at(t, p))
+    for t in (t1, t2):
+        for v in subvalues(t):
+            if isinstance(v, (set, frozenset)):
+                vals.extend(v)
+    tynames = sorted(set(n for v in vals for n, (ty, _c) in TYPES.items() if type(v) is ty)) or ["int"]
+
+    def pred():
+        r = rng.random()
+        if r < 0.4 and vals:
+            return ["vals", [V.canon(v) for v in rng.sample(vals, min(len(vals), rng.randint(1, 3)))]]
+        if r < 0.55:
+            return ["str_has", rng.choice(["a", "b", "", "x"])]
+        if r < 0.7:
+            return ["int_mod", 2, rng.randint(0, 1)]
+        if r < 0.85:
+            return ["num_ge", rng.choice([0, 1, 2, 2.5])]
+        return ["len_ge", rng.randint(0, 3)]
+    k = rng.choice(["ty", "ty", "cb", "cb", "cbs", "icb", "icbs"])
+    if k == "ty":
+        return {"ty": sorted(rng.sample(tynames, min(len(tynames), rng.randint(1, 2))))}
+    if k in ("icb", "icbs"):
+        # an include callback that rejects containers skips nearly everything: mostly accept them
+        return {k: ["cont_or", pred()] if rng.random() < 0.7 else pred()}
+    return {k: pred()}
+
+
 def gen_options(rng, t1, t2, P, n, hot=()):
     """n filter options for one pair; `hot` = positions at / above / next to an
     entry of the unrestricted result (chosen more often, so that the filter bites)"""
@@ -650,10 +834,26 @@ def gen_options(rng, t1, t2, P, n, hot=()):
     hot = [p for p in hot if p]
     keypaths = [p for p in nonroot if p and p[-1][0] == "k"] or nonroot
     strpaths = [p for p in nonroot if p and all(simple_str_key(e) for e in p)] or nonroot
+
+    def casefold_twin(p):
+        if not p or p[-1][0] != "k" or not isinstance(D.uncanon_atom(p[-1][1]), str):
+            return False
+        me = D.uncanon_atom(p[-1][1])
+        for q in P:
+            if len(q) == len(p) and q[:-1] == p[:-1] and q[-1][0] == "k" and q != p:
+                other = D.uncanon_atom(q[-1][1])
+                if isinstance(other, str) and other != me and other.lower() == me.lower():
+                    return True
+        return False
+    twins = [p for p in nonroot if casefold_twin(p)]
+    special = [p for p in nonroot if p[-1][0] == "k" and D.uncanon_atom(p[-1][1]) in ("a\nb", "x y")]
     out = []
     for _ in range(n):
         kind = rng.choice(["lit1", "lit1", "lit1", "lit3", "lit3", "rx_prefix", "rx_exact", "rx_class",
-                           "inc1", "inc1", "inc2", "inc_any", "unrooted", "lit_rx", "ex_inc", "spelling", "set_idx"])
+                           "inc1", "inc1", "inc2", "inc_any", "unrooted", "lit_rx", "ex_inc", "spelling", "set_idx",
+                           "val", "val_lit", "val_lit", "val_rx", "val_inc", "rx_flags", "rx_flags", "multi"])
+        if (twins or special) and rng.random() < 0.3:
+            kind = "rx_flags"         # sibling keys that differ only in case / hold a newline or a blank: flags matter
         zip_ = rng.random() < 0.6
         pool = nonroot if zip_ or rng.random() < 0.25 else keypaths
         if hot and rng.random() < 0.65:
@@ -685,6 +885,48 @@ def gen_options(rng, t1, t2, P, n, hot=()):
         elif kind == "lit_rx":
             opt["ex"] = [render(rng.choice(pool))]
             opt["rx"] = ["^" + rx_escape(render(rng.choice(pool))) + "$"]
+        elif kind == "rx_flags":
+            # SETS of 2-3 patterns mixing plain strings and PRE-COMPILED patterns with flags (re.I / re.S / re.M / re.X):
+            # a plain, flag-less pattern next to a compiled one must keep ITS reading - case-sensitive against a
+            # sibling key that differs only in case, '.' not matching a newline inside a key, '^' only at the start,
+            # a literal blank
+            flag = rng.choice([re.I, re.I, re.I, re.S, re.M, re.X])
+            if twins and not special:
+                flag = re.I
+            elif special and not twins and flag == re.I:
+                flag = rng.choice([re.S, re.M, re.X])
+            plain = []
+            if flag == re.I or rng.random() < 0.3:
+                q = rng.choice(twins) if twins and rng.random() < 0.85 else rng.choice(pool)
+                plain.append(rng.choice(["^" + rx_escape(render(q)) + "$", rx_escape(render_elem(q[-1])) + "$" if q else "^root$"]))
+            if flag == re.S:
+                plain.append(r"\['a.b'\]")                   # '.' is not a newline unless DOTALL leaks in
+            if flag == re.M:
+                plain.append(r"^b'\]")                        # matches nothing unless MULTILINE leaks in (key 'a\nb')
+            if flag == re.X:
+                plain.append(r"\['x y'\]")                   # the blank is literal unless VERBOSE leaks in
+            q2 = rng.choice(pool)
+            compiled = [rng.choice(["^" + rx_escape(render(q2)) + "$", r"\['tmp_\w+'\]", r"\['zz+'\]$"]), int(flag)]
+            pats = plain + [compiled]
+            if rng.random() < 0.3:
+                pats.append("^" + rx_escape(render(rng.choice(pool))) + "$")
+            rng.shuffle(pats)
+            opt["rx"] = pats
+        elif kind == "multi":
+            # sets of several paths mixing literal and regex exclusion
+            opt["ex"] = sorted(set(render(rng.choice(pool)) for _ in range(rng.randint(1, 3))))
+            opt["rx"] = ["^" + rx_escape(render(rng.choice(pool))) + rng.choice(["", "$"]) for _ in range(rng.randint(1, 2))]
+        elif kind in ("val", "val_lit", "val_rx", "val_inc"):
+            # the object-dependent branches of _skip_this, alone or under / over a path option
+            opt.update(gen_value_opt(rng, t1, t2, P, hot))
+            if rng.random() < 0.25:
+                opt.update(gen_value_opt(rng, t1, t2, P, hot))
+            if kind == "val_lit":
+                opt["ex"] = sorted(set(render(rng.choice(pool)) for _ in range(rng.randint(1, 2))))
+            elif kind == "val_rx":
+                opt["rx"] = ["^" + rx_escape(render(rng.choice(pool))) + rng.choice(["", "$"])]
+            elif kind == "val_inc":
+                opt["inc"] = [render(rng.choice(incpool))]
         elif kind == "set_idx":
             # the DeepHash side: the pseudo-path <set path>[i] of a member of a set (K13c)
             sets = [p for p in P if isinstance(_at(t1, p), (set, frozenset)) or isinstance(_at(t2, p), (set, frozenset))]
@@ -733,25 +975,77 @@ def gen_options(rng, t1, t2, P, n, hot=()):
     return out
 
 
-def in_quantifier(opt, spec):
-    """the property's quantifier: positional mode for arbitrary paths; default
-    alignment only when no filtered path ends in a sequence index (the theorem's
-    guard: slightly wider than "paths made of dictionary keys")"""
+def is_basic(x):
+    return not isinstance(x, CONTAINERS)
+
+
+def common_children(a, b, path):
+    """the child levels the diff recurses into: (child path, x, y)"""
+    if isinstance(a, dict):
+        for k in a:
+            if private(k) or k not in b:
+                continue
+            k2 = [q for q in b if q == k][0]
+            yield path + [["k", V.canon_atom(k2)]], a[k], b[k2]
+    elif isinstance(a, (list, tuple)):
+        for i, (x, y) in enumerate(zip(a, b)):
+            yield path + [["x", i]], x, y
+
+
+def leaf_split(t1, t2, spec):
+    """default alignment mode: some pair of all-basic sequences at a kept level whose index children
+    0 .. max(len)-1 are neither all kept nor all dropped (the difflib pass then sees what the filter hides)"""
+    def walk(a, b, path):
+        if type(a) is not type(b) or not spec.keep(path):
+            return False
+        if isinstance(a, (list, tuple)) and all(is_basic(x) for x in a) and all(is_basic(x) for x in b):
+            ks = [spec.keep(path + [["x", i]]) for i in range(max(len(a), len(b)))]
+            return any(ks) and not all(ks)
+        return any(walk(x, y, q) for q, x, y in common_children(a, b, path))
+    return walk(t1, t2, [])
+
+
+def in_quantifier(opt, spec, t1, t2):
+    """where the filter equation is asserted on the implementation: positional mode for arbitrary
+    paths; default alignment mode unless the filter splits the index children of a pair of all-basic
+    sequences (the input-level guard of C13_exclude_guarded / C13_include_guarded: wider than the
+    property's "paths made of dictionary keys" - an index of a sequence holding a container is fine)"""
     if spec.inc_given and not spec.inc_paths:
         return False          # an include string that names no position of either input
     if opt["zip"]:
         return True
-    for q in spec.ex_paths:
-        if q and q[-1][0] == "x":
-            return False
-    for p in spec.P:
-        if p and p[-1][0] == "x" and spec.rxs and spec.rx_match(p) and not spec.excluded(p[:-1]):
-            return False
-    if spec.inc_given:
-        for p in spec.P:
-            if p and p[-1][0] == "x" and spec.included(p[:-1]) and not spec.included(p):
+    return not leaf_split(t1, t2, spec)
+
+
+def xguard_py(t1, t2, opt, spec):
+    """the guard of C13_exclude_threshold_exact re-stated on Python values: at every pair of dicts the
+    FILTERED run reaches, subtracting the excluded keys (spelled f"{path}[{key!r}]") from the union flips
+    no whole-dict shortcut; at every pair of all-basic sequences it reaches in default mode the index
+    children are kept or dropped together"""
+    thr = opt["thr"]
+    exs = set(s for a in opt.get("ex", ()) for s in rooted(a))
+
+    def walk(a, b, path):
+        if type(a) is not type(b):
+            return True
+        if isinstance(a, dict):
+            k1 = [k for k in a if not private(k)]
+            k2 = [k for k in b if not private(k)]
+            inter = [k for k in k2 if k in k1]
+            union = k2 + [k for k in k1 if k not in k2]
+            base = render(path)
+            ulen = len([k for k in union if "%s[%r]" % (base, k) not in exs])
+            full = shortcut(len(inter), len(union), thr)
+            if shortcut(len(inter), ulen, thr) != full:
                 return False
-    return True
+            if full:
+                return True
+        elif isinstance(a, (list, tuple)):
+            if not opt["zip"] and all(is_basic(x) for x in a) and all(is_basic(x) for x in b):
+                ks = [spec.keep(path + [["x", i]]) for i in range(max(len(a), len(b)))]
+                return all(ks) or not any(ks)
+        return all(walk(x, y, q) for q, x, y in common_children(a, b, path) if spec.keep(q))
+    return spec.excluded([]) or walk(t1, t2, [])
 
 
 def has_pos(t, q):
@@ -807,8 +1101,15 @@ def oracle_one(t1, t2, opt, base_tree, base_text, rng, do_text=True, do_indep=Tr
     spec = Spec(P, opt.get("ex", ()), opt.get("rx", ()), opt.get("inc", ()))
     objs = []
     got, unmod = run_tree(t1, t2, opt, objs)
-    inq = in_quantifier(opt, spec)
-    flags = {"inq": inq, "objs": objs}
+    vo = value_opts(opt)
+    # object-dependent options: `base_*` is the run with the same object-dependent options and no path option.
+    # Not asserted (outside the property; correspondence only): include_paths shadow every other branch of
+    # _skip_this, and an include_obj_callback overwrites the verdict of the literal exclude_paths test
+    outside_value = bool(vo) and (bool(opt.get("inc")) or (bool(opt.get("icb") or opt.get("icbs")) and bool(opt.get("ex"))))
+    inq = in_quantifier(opt, spec, t1, t2) and not outside_value
+    if vo:
+        do_text = do_indep = False
+    flags = {"inq": inq, "objs": objs, "outside_value": outside_value}
     if not unmod:
         fails.append((case_dict(t1, t2, opt), "DeepDiff modified its inputs"))
     if isinstance(got, tuple):
@@ -820,6 +1121,14 @@ def oracle_one(t1, t2, opt, base_tree, base_text, rng, do_text=True, do_indep=Tr
     want = [e for e in base_tree if spec.keep(e[1])]
     nontrivial = 0 < len(want) < len(base_tree)
     tree_ok = True
+    if (opt["zip"] and not vo and not opt.get("inc") and (opt.get("ex") or opt.get("rx")) and not opt.get("share")
+            and not set_member_hit(t1, t2, opt, spec)):
+        # the exact characterisation (C13_exclude_threshold_exact) observed on the real run
+        g = xguard_py(t1, t2, opt, spec)
+        flags["exact"] = "guard_holds" if g else "guard_fails"
+        if g != (got == want):
+            flags["exact_break"] = {"name": "C13_exclude_threshold_exact not observed", "case": case_dict(t1, t2, opt),
+                                    "guard": g, "equation_holds": got == want}
     if inq and got != want:
         tree_ok = False
         extra = [e[:2] for e in got if e not in want]
@@ -852,12 +1161,18 @@ def oracle_one(t1, t2, opt, base_tree, base_text, rng, do_text=True, do_indep=Tr
 
 
 def model_expr(t1, t2, opt, spec, hits=()):
-    return "c13_case_h %s %s %s %s %s %s %s %s %s" % (
+    def tbl(k):
+        return core.coq_list(cb_table(opt[k], t1, t2)) if opt.get(k) else "[]"
+
+    def otbl(k):
+        return "(Some %s)" % core.coq_list(cb_table(opt[k], t1, t2)) if opt.get(k) else "None"
+    return "c13_case_v %s %s %s %s %s %s %s %s %s %s %s %s %s %s" % (
         D.coq_udiff_table(D.udiff_table(t1, t2)), D.coq_ops_table(D.opcode_table(t1, t2)),
         core.coq_list(D.coq_pathc(p) for p in spec.rx_table()),
         core.coq_list("(%s, %d)" % (D.coq_pathc(p), i) for p, i in hits),
         core.coq_list(core.coq_pystr(s) for s in opt.get("ex", ())),
         core.coq_list(core.coq_pystr(s) for s in opt.get("inc", ())),
+        core.coq_list(TYPES[n][1] for n in opt.get("ty", ())), tbl("cb"), tbl("cbs"), otbl("icb"), otbl("icbs"),
         D.coq_cfg(opt["zip"], opt["thr"]), V.to_coq(t1), V.to_coq(t2))
 
 
@@ -865,12 +1180,21 @@ def _work(args):
     seed, npairs, nopts = args
     sys.path.insert(0, core.REPO)
     rng = random.Random(seed)
-    cases, fails, counts, seen, samples = [], [], {}, [], []
+    cases, fails, counts, seen, samples, breaks = [], [], {}, [], [], []
 
     def cnt(k, n=1):
         counts[k] = counts.get(k, 0) + n
     for _ in range(npairs):
-        t1, t2 = gen_pair_records(rng) if rng.random() < 0.3 else gen_pair(rng)
+        r = rng.random()
+        if r < 0.3:
+            t1, t2 = gen_pair_records(rng)
+        elif r < 0.42:
+            t1, t2 = gen_boundary_pair(rng)
+            cnt("pairs_on_guard_boundaries")
+            if D.set_alias(t1, t2) or len(all_positions(t1, t2)) < 3:
+                t1, t2 = gen_pair(rng)
+        else:
+            t1, t2 = gen_pair(rng)
         shared_obj = None
         if rng.random() < 0.5:
             sp = share_pair(rng, t1, t2)
@@ -893,10 +1217,11 @@ def _work(args):
         for opt in gen_options(rng, t1, t2, P, nopts, hot):
             if shared_obj:
                 opt["share"] = shared_obj
-            bk = (opt["zip"], opt["thr"])
+            vo = value_opts(opt)
+            bk = (opt["zip"], opt["thr"]) if not vo else (opt["zip"], opt["thr"], json.dumps(vo, sort_keys=True))
             if bk not in base:
-                bopt = {"zip": opt["zip"], "thr": opt["thr"]}
-                base[bk] = (run_tree(t1, t2, bopt)[0], run_text(t1, t2, bopt))
+                bopt = dict(vo, zip=opt["zip"], thr=opt["thr"])
+                base[bk] = (run_tree(t1, t2, bopt)[0], None if vo else run_text(t1, t2, bopt))
             bt, bx = base[bk]
             fs, nontriv, got, flags = oracle_one(t1, t2, opt, bt, bx, rng)
             fails += fs
@@ -905,6 +1230,14 @@ def _work(args):
             cnt("mode:" + ("positional" if opt["zip"] else "default"))
             cnt("thr:%s" % opt["thr"])
             cnt("in_quantifier" if flags["inq"] else "outside_quantifier(correspondence only)")
+            for k in vo:
+                cnt("value_option:" + k)
+            if flags.get("outside_value"):
+                cnt("value_option_shadowed_or_overriding(correspondence only)")
+            if flags.get("exact"):
+                cnt("exactness_observed:" + flags["exact"])
+            if flags.get("exact_break"):
+                breaks.append(flags["exact_break"])
             if nontriv:
                 cnt("filter_removed_some_kept_some")
             if flags.get("indep"):
@@ -927,7 +1260,7 @@ def _work(args):
             cases.append((model_expr(a, b, opt, spec, hits), got, case_dict(t1, t2, opt)))
             if len(samples) < 2 and nontriv:
                 samples.append(case_dict(t1, t2, opt, filtered_entries=len(got), unrestricted_entries=len(bt)))
-    return cases, fails, counts, seen, samples
+    return cases, fails, counts, seen, samples, breaks
 
 
 # --------------------------------------------------------------------------
@@ -968,6 +1301,25 @@ WITNESSES = [
     ("include_substring_sibling_refuted", {"xroot['a']": 1, 'a': 1, 'b': 1}, {"xroot['a']": 2, 'a': 2, 'b': 2},
      {"zip": True, "thr": 0, "inc": ["root[\"xroot['a']\"]"], "kind": "witness"},
      {'values_changed': {"root['a']": {'new_value': 2, 'old_value': 1}}}),
+    # round 3: the guard examples (the guard holds: the filter equation is met) and the new refutations
+    ("xguard_below_excluded_example", {'k': {'a': 1, 'b': 2}, 'z': 1, 'w': 3}, {'k': {'a': 1, 'x': 2, 'y': 3}, 'z': 2, 'w': 3},
+     {"zip": True, "thr": 0.33, "ex": ["root['k']", "root['k']['y']"], "kind": "witness"},
+     {'values_changed': {"root['z']": {'new_value': 2, 'old_value': 1}}}),
+    ("xguard_default_index_example", [{'a': 1}, 2, 3], [{'a': 2}, 3, 4],
+     {"zip": False, "thr": 0.33, "ex": ["root[1]"], "kind": "witness"},
+     {'values_changed': {"root[0]['a']": {'new_value': 2, 'old_value': 1}, 'root[2]': {'new_value': 4, 'old_value': 3}}}),
+    ("iguard_example", {'a': [{'b': 1, 'c': 2}, 7], 'z': 1}, {'a': [{'b': 2, 'c': 3}, 8], 'z': 2},
+     {"zip": False, "thr": 0.33, "inc": ["root['a'][0]['b']"], "kind": "witness"},
+     {'values_changed': {"root['a'][0]['b']": {'new_value': 2, 'old_value': 1}}}),
+    ("C13_include_threshold_refuted", {'a': 1, 'b': 2, 'c': 3}, {'a': 2, 'x': 2, 'y': 3},
+     {"zip": True, "thr": 0.33, "inc": ["root['a']"], "kind": "witness"},
+     {'values_changed': {"root['a']": {'new_value': 2, 'old_value': 1}}}),
+    ("C13_include_shadows_types_refuted", {'a': {'b': 1, 'c': 'x'}}, {'a': {'b': 2, 'c': 'y'}},
+     {"zip": True, "thr": 0, "inc": ["root['a']"], "ty": ["int"], "kind": "witness"},
+     {'values_changed': {"root['a']['b']": {'new_value': 2, 'old_value': 1}, "root['a']['c']": {'new_value': 'y', 'old_value': 'x'}}}),
+    ("include_callback_overrides_exclude_witness", {'a': 1, 'b': 's'}, {'a': 2, 'b': 't'},
+     {"zip": True, "thr": 0, "ex": ["root['a']"], "icb": ["int_mod", 1, 0], "kind": "witness"},
+     {'values_changed': {"root['a']": {'new_value': 2, 'old_value': 1}}}),
 ]
 
 
@@ -991,8 +1343,10 @@ def run(ctx):
     with mp.get_context("fork").Pool(nw) as pool:
         res = pool.map(_work, tasks, chunksize=1)
     cases = []
-    for cs, fails, counts, seen, samples in res:
+    for cs, fails, counts, seen, samples, breaks in res:
         cases += cs
+        for b in breaks:
+            ctx.break_("correspondence", b)
         for k, n in counts.items():
             ctx.count(k, n)
         for key, nt in seen:
@@ -1011,8 +1365,9 @@ def replay(ctx, data):
         return run(ctx)
     t1, t2 = rebuild(case)
     opt = case["opt"]
-    bopt = {"zip": opt["zip"], "thr": opt["thr"]}
-    bt, bx = run_tree(t1, t2, bopt)[0], run_text(t1, t2, bopt)
+    vo = value_opts(opt)
+    bopt = dict(vo, zip=opt["zip"], thr=opt["thr"])
+    bt, bx = run_tree(t1, t2, bopt)[0], (None if vo else run_text(t1, t2, bopt))
     rng = random.Random(1)
     fs, nontriv, got, flags = oracle_one(t1, t2, opt, bt, bx, rng, do_indep="t1b" not in case)
     if "t1b" in case:
